@@ -25,6 +25,12 @@ def run(S):
     S.function('Mechanics.create_mechanics_functions.compute_output_energy_densities_and_stresses', Mechanics.create_mechanics_functions, 'J')
     _safe_sqrt(S, Math)
     _stress_output(S, Mechanics)
+    # the derivative rule of the tensor functions the stress is built from (contracts shared with C12)
+    from props import C12
+    from optimism import TensorMath
+    S.function('TensorMath._symmetric_matrix_function_jvp_helper', TensorMath._symmetric_matrix_function_jvp_helper, 'J')
+    C12.jvp_helper_clause(S, TensorMath)
+    C12._relative_differences(S, TensorMath)
     bounded(S)
 
 
